@@ -402,7 +402,18 @@ def NO_PENDING(b):
 def WF(b):
     """Representation invariant of the builder (established by __init__, preserved by every on_* method)."""
     p = PENDING(b)
-    return AND(IMPLIES(p.tag == T_PAD, lambda: ISINST(p.T, "VoidType")))
+    return AND(IMPLIES(p.tag == T_PAD, lambda: ISINST(p.T, "VoidType")),
+               # a serialization mode, once set, is one of the two concrete modes (never the abstract base)
+               *[_mode_wf(sec._serialization_mode) for sec in SECS(b)])
+
+
+def _mode_wf(m):
+    if smt():
+        if isinstance(m, OptV):
+            return OR(speclib._b(m.is_none), ISINST(m.val, "DelimitedSerializationMode", "SealedSerializationMode"))
+        if m is None:
+            return True
+    return m is None or ISINST(m, "DelimitedSerializationMode", "SealedSerializationMode")
 
 
 def commit_clauses(s, doc):
@@ -497,6 +508,20 @@ def _is_delimited(m):
             return False
         return ISINST(m, "DelimitedSerializationMode")
     return ISINST(m, "DelimitedSerializationMode")
+
+
+@contract(DTB + ".__init__", props=P)
+class _DTBInit:
+    """Base case of the protocol invariant: a fresh builder has one empty section and nothing pending."""
+    params = dict(definition=ObjOf(RDF), lookup_definitions=SeqOf(ObjOf(RDF)),
+                  definition_visitors=SeqOf(ObjOf("pydsdl._dsdl.DefinitionVisitor")),
+                  print_output_handler=RecorderK("print_output_handler"), allow_unregulated_fixed_port_id=Bool)
+
+    def post(s):
+        b = s.self
+        return {"one-section": len(SECS(b)) == 1, "section-empty": dsb_is_empty(SECS(b)[0]), "nothing-pending": NO_PENDING(b),
+                "not-deprecated": NOT(b._is_deprecated), "wf": WF(b), "no-print-yet": len(_calls(b)) == 0,
+                "definition": SAME(b._definition, s.definition)}
 
 
 _TWO_SECTION_INSTANCES = lambda: [{"self._structs": ListK(MutObjOf(DSB))}, {"self._structs": ListK(MutObjOf(DSB), MutObjOf(DSB))}]
@@ -798,8 +823,306 @@ def lambda_free_str(s):
     return str(v) if v is not None else ""
 
 
+# ------------------------------------------------------------------------------------------------ builder -> composite
+from .common import SERVICE, DELIMITED, VersionK
+
+STRUCTURE = "pydsdl._serializable._composite.StructureType"
+UNION = "pydsdl._serializable._composite.UnionType"
+
+
+@class_spec(DELIMITED)
+class _DelimitedSpec:
+    fields = dict(_inner=ObjOf(COMPOSITE), _extent=Int)
+
+
+def _def_ghost(d, name, kind):
+    """Attributes of a definition object that are derived from its file path (fixed for the object)."""
+    if smt():
+        from pyvc.values import RefSort
+
+        eng = speclib.CTX.engine
+        return kind.build(speclib.CTX, lambda suffix, sort: eng.uf("ghost!def!" + name + suffix, RefSort, sort)(d.ref))
+    return getattr(d, name)
+
+
+def _def_iface(name, kind):
+    for _cls in (DSDLFILE, RDF):
+        @contract(_cls + "." + name, props=P)
+        class _DefIface:
+            returns = kind
+            verify = False
+            assumed = "interface: a path-derived attribute of a definition is a fixed attribute of the definition object"
+
+            def post(s, name=name, kind=kind):
+                return {name: SAME(s.result, _def_ghost(s.self, name, kind))}
+
+
+_def_iface("full_name", Str)
+_def_iface("version", VersionK)
+_def_iface("fixed_port_id", Opt(Int))
+
+
+def _composite_init_contract(q):
+    @contract(q + ".__init__", props=P)
+    class _CompositeInitAssumed:
+        params = dict(name=Str, version=VersionK, attributes=SeqOf(ObjOf(ATTRIBUTE)), deprecated=Bool, fixed_port_id=Opt(Int),
+                      source_file_path=Str, has_parent_service=Bool, doc=Str)
+        raises = {"InvalidDefinitionError": None}  # name / version / port-ID / attribute rules: C05, C02
+        verify = False
+        assumed = ("StructureType/UnionType.__init__ -> CompositeType.__init__ store what they are given (attributes as a "
+                   "list in the given order); when they reject is the subject of C05/C02")
+
+        def post(s):
+            t = s.self
+            return {"name": EQ(t._name, s.name), "version": SAME(t._version, s.version),
+                    "attributes": SEQ_SAME(t._attributes, s.attributes), "deprecated": EQ(t._deprecated, s.deprecated),
+                    "port": SAME(t._fixed_port_id, s.fixed_port_id), "path": EQ(t._source_file_path, s.source_file_path),
+                    "parent": EQ(t._has_parent_service, s.has_parent_service), "doc": EQ(t._doc, s.doc)}
+
+
+_composite_init_contract(STRUCTURE)
+_composite_init_contract(UNION)
+
+
+@contract(DELIMITED + ".__init__", props=P)
+class _DelimitedInitAssumed:
+    publishes_args = True
+    params = dict(inner=ObjOf(COMPOSITE), extent=Int)
+    raises = {"InvalidDefinitionError": None}
+    verify = False
+    assumed = "DelimitedType.__init__ keeps the wrapped type, copies its descriptive attributes and stores the extent (C02/C14)"
+
+    def post(s):
+        t, i = s.self, s.inner
+        return {"inner": SAME(t._inner, i), "extent": t._extent == s.extent, "name": EQ(t._name, i._name),
+                "version": SAME(t._version, i._version), "attributes": SEQ_SAME(t._attributes, i._attributes),
+                "deprecated": EQ(t._deprecated, i._deprecated), "port": SAME(t._fixed_port_id, i._fixed_port_id),
+                "path": EQ(t._source_file_path, i._source_file_path), "parent": EQ(t._has_parent_service, i._has_parent_service),
+                "doc": EQ(t._doc, i._doc)}
+
+
+@contract(SERVICE + ".__init__", props=P)
+class _ServiceInitAssumed:
+    publishes_args = True
+    params = dict(request=ObjOf(COMPOSITE), response=ObjOf(COMPOSITE), fixed_port_id=Opt(Int))
+    raises = {"InvalidDefinitionError": None, "ValueError": None}
+    verify = False
+    assumed = ("ServiceType.__init__ keeps the two parts, takes name (the parts' common namespace), version, deprecation, "
+               "path and doc from the request part and stores the port-ID (C05)")
+
+    def post(s):
+        t, rq = s.self, s.request
+        return {"request": SAME(t._request_type, s.request), "response": SAME(t._response_type, s.response),
+                "port": SAME(t._fixed_port_id, s.fixed_port_id), "deprecated": EQ(t._deprecated, rq._deprecated),
+                "version": SAME(t._version, rq._version), "path": EQ(t._source_file_path, rq._source_file_path),
+                "not-a-part": NOT(t._has_parent_service)}
+
+
+def ROOT_OF(name):
+    """First component of a dotted full name."""
+    if smt():
+        return speclib.CTX.engine.uf("ghost!root_of", z3.StringSort(), z3.StringSort())(Str.unwrap(name))
+    return name.split(".")[0]
+
+
+@contract(COMPOSITE + ".root_namespace", props=P)
+class _RootNamespaceAssumed:
+    returns = Str
+    verify = False
+    assumed = "CompositeType.root_namespace: first component of the full name (C15/C05)"
+
+    def post(s):
+        return {"first-component": EQ(s.result, ROOT_OF(s.self._name))}
+
+
+def REGULATED_OK(is_service, port, ns):
+    """The regulated port-ID ranges (tables of _port_id_ranges.py, C11/C15): uninterpreted here."""
+    if smt():
+        return speclib.CTX.engine.uf("ghost!regulated_ok", z3.BoolSort(), z3.IntSort(), z3.StringSort(), z3.BoolSort())(
+            speclib._b(is_service), Int.unwrap(VAL(port)), Str.unwrap(ns))
+    from pydsdl import _port_id_ranges as R
+
+    return (R.is_valid_regulated_service_id if is_service else R.is_valid_regulated_subject_id)(port, ns)
+
+
+for _fn, _svc in (("is_valid_regulated_subject_id", False), ("is_valid_regulated_service_id", True)):
+    @contract("pydsdl._port_id_ranges." + _fn, props=P)
+    class _RegulatedAssumed:
+        params = dict(regulated_id=Int, root_namespace=Str)
+        returns = Bool
+        verify = False
+        assumed = "range tables of regulated port-IDs (not part of C03)"
+
+        def post(s, _svc=_svc):
+            return {"table": IFF(s.result, REGULATED_OK(_svc, s.regulated_id, s.root_namespace))}
+
+
+def INNER(t):
+    """The structure / union behind a (possibly delimited) composite."""
+    if smt():
+        if isinstance(t, Obj) and t.fields is not None:
+            return t.fields["_inner"] if t.cls.name == "DelimitedType" else t
+        d = speclib.AS(t, DELIMITED)
+        return _ObjIte(ISINST(t, "DelimitedType"), d._inner, t)
+    return t.inner_type
+
+
+class _ObjIte:
+    """`a if c else b` of two abstract objects, read field-wise (specification-side only)."""
+
+    def __init__(self, c, a, b):
+        self.c, self.a, self.b = c, a, b
+
+    def __getattr__(self, n):
+        x, y = getattr(self.a, n), getattr(self.b, n)
+        if isinstance(x, SymSeq):
+            from pyvc.values import SymSeq as _S
+
+            return _S(z3.If(self.c, x.arr, y.arr), z3.If(self.c, x.length, y.length), x.kind)
+        if isinstance(x, OptV):
+            return OptV(z3.If(self.c, speclib._b(x.is_none), speclib._b(y.is_none)), z3.If(self.c, x.val, y.val))
+        if hasattr(x, "comps"):
+            from pyvc.values import RecV
+
+            return RecV(x.name, {k: z3.If(self.c, x.comps[k], y.comps[k]) for k in x.comps})
+        return z3.If(self.c, x, y)
+
+    @property
+    def ref(self):
+        return z3.If(self.c, self.a.ref, self.b.ref)
+
+
+def _extent_of(t):
+    """The extent stored by a delimited composite (meaningless otherwise)."""
+    if smt():
+        if isinstance(t, Obj) and t.fields is not None:
+            return t.fields["_extent"] if t.cls.name == "DelimitedType" else z3.IntVal(-1)
+        return speclib.AS(t, DELIMITED)._extent
+    return t.extent
+
+
+for _n, _k in (("short_name", Str), ("extent", Int)):
+    @contract(COMPOSITE + "." + _n, props=P)
+    class _CompositeAccessorAssumed:
+        returns = _k
+        verify = False
+        assumed = "accessor of a composite used only to format an error message here (C02/C15)"
+
+
+def IS_UNION(t):
+    if smt() and isinstance(t, _ObjIte):
+        return z3.If(t.c, ISINST(t.a, "UnionType"), ISINST(t.b, "UnionType"))
+    return ISINST(t, "UnionType")
+
+
+def mirrors(t, sec, name, version, deprecated, port, path, parent):
+    """Statement: the section's fields (source order) then constants (source order) are the composite's attributes; @union,
+    @deprecated, @sealed / @extent and the header comment are reflected in its kind, flags, extent and doc."""
+    inner = INNER(t)
+    mode = sec._serialization_mode
+    return {
+        "attributes-are-fields-then-constants": SEQ_CONCAT(inner._attributes, sec._fields, sec._constants),
+        "same-attributes-seen-through-the-delimiter": SEQ_SAME(t._attributes, inner._attributes),
+        "union-iff-marked": IFF(IS_UNION(inner), sec._is_union),
+        "delimited-iff-extent-given": IFF(ISINST(t, "DelimitedType"), _is_delimited(mode)),
+        "extent-as-given": IMPLIES(_is_delimited(mode), lambda: _extent_of(t) == speclib.AS(VAL(mode), DELIM_MODE).extent),
+        "doc-is-the-header-comment": AND(EQ(t._doc, sec._doc), EQ(inner._doc, sec._doc)),
+        "deprecated-iff-marked": AND(EQ(t._deprecated, deprecated), EQ(inner._deprecated, deprecated)),
+        "name": EQ(t._name, name), "version": SAME(t._version, version), "port": SAME(t._fixed_port_id, port),
+        "path": EQ(t._source_file_path, path), "parent": EQ(t._has_parent_service, parent),
+        "not-a-service": NOT(ISINST(t, "ServiceType")),
+    }
+
+
+@contract(DTB + "._make_composite", props=P)
+class _MakeComposite:
+    params = dict(builder=MutObjOf(DSB), name=Str, version=VersionK, deprecated=Bool, fixed_port_id=Opt(Int),
+                  source_file_path=Str, has_parent_service=Bool)
+    returns = ObjOf(COMPOSITE)
+    raises = {"MissingSerializationModeError": lambda s: IS_NONE(s.builder._serialization_mode),
+              "InvalidDefinitionError": None}
+
+    def pre(s):
+        return {"mode-is-concrete": _mode_wf(s.builder._serialization_mode)}
+
+    def post(s):
+        out = mirrors(s.result, s.builder, s.name, s.version, s.deprecated, s.fixed_port_id, s.source_file_path,
+                      s.has_parent_service)
+        out["builder-untouched"] = dsb_unchanged(s.builder, s.old_builder)
+        return out
+
+
+def _definition_of(b):
+    return b._definition
+
+
+def _unregulated(s):
+    """A fixed port-ID outside the regulated range of the kind (message / service) is rejected unless allowed."""
+    d = _definition_of(s.old)
+    port = _def_ghost(d, "fixed_port_id", Opt(Int))
+    return AND(NOT(s.old._allow_unregulated_fixed_port_id), NOT(IS_NONE(port)),
+               lambda: NOT(REGULATED_OK(len(SECS(s.old)) == 2, port, ROOT_OF(_def_ghost(d, "full_name", Str)))))
+
+
+@contract(DTB + ".finalize", props=P)
+class _Finalize:
+    """Statement: the service split is reflected in the model's request / response parts; a message is the composite of the
+    only section.  Requires that nothing is pending (established by the end of the traversal: `end_of_input`)."""
+    returns = ObjOf(COMPOSITE)
+    instances = _TWO_SECTION_INSTANCES
+    raises = {"MissingSerializationModeError": lambda s: OR(*[IS_NONE(x._serialization_mode) for x in SECS(s.old)]),
+              "UnregulatedFixedPortIDError": lambda s: _unregulated(s),
+              "InvalidDefinitionError": None, "ValueError": None}
+
+    def pre(s):
+        return {"no-pending-attribute": NO_PENDING(s.self), "wf": WF(s.self)}
+
+    def post(s):
+        b, d = s.self, _definition_of(s.self)
+        secs = SECS(b)
+        nm, ver = _def_ghost(d, "full_name", Str), _def_ghost(d, "version", VersionK)
+        port, path = _def_ghost(d, "fixed_port_id", Opt(Int)), FILE_PATH(d)
+        t = s.result
+        out = {"builder-untouched": AND(*[dsb_unchanged(x, y) for x, y in zip(secs, SECS(s.old))]),
+               "service-iff-marker-seen": IFF(ISINST(t, "ServiceType"), len(secs) == 2),
+               "port-id-of-the-definition": SAME(t._fixed_port_id, port),
+               "name-of-the-definition": EQ(t._name, nm)}
+        if len(secs) == 1:
+            for k, v in mirrors(t, secs[0], nm, ver, b._is_deprecated, port, path, False).items():
+                out["message:" + k] = v
+        else:
+            svc = speclib.AS(t, SERVICE)
+            none = OptV(True, 0) if smt() else None
+            for k, v in mirrors(svc._request_type, secs[0], _cat(nm, ".Request"), ver, b._is_deprecated, none, path, True).items():
+                out["request:" + k] = v
+            for k, v in mirrors(svc._response_type, secs[1], _cat(nm, ".Response"), ver, b._is_deprecated, none, path, True).items():
+                out["response:" + k] = v
+            out["service:deprecated-iff-marked"] = EQ(t._deprecated, b._is_deprecated)
+        return out
+
+
+def _cat(a, b):
+    if smt():
+        return z3.Concat(Str.unwrap(a), Str.unwrap(b))
+    return a + b
+
+
 # ------------------------------------------------------------------------------------------------ level 3: processor
 NodeK = Rec("Node", text=Str)
+
+
+def _frontend_path(rel):
+    import os
+    from pyvc import frontend
+
+    return os.path.join(frontend.REPO_ROOT, "pydsdl", rel)
+
+
+# The processor may remember the line of the attribute statement that is waiting for its doc comment (fix of finding F2,
+# C17).  The specification adapts to the tree it is run on: the clauses about that field exist iff the field exists.
+LINE_MEMO = "_attribute_line_number"
+with open(_frontend_path("_parser.py"), "r", encoding="utf8") as _f:
+    HAS_LINE_MEMO = ("self.%s" % LINE_MEMO) in _f.read()
 
 
 @class_spec(PTP)
@@ -810,9 +1133,15 @@ class _PTPSpec:
         _comment=Str,
         _comment_is_header=Bool,
         _strict=Bool,
+        **({LINE_MEMO: Int} if HAS_LINE_MEMO else {})
     )
-    mutable = ["_current_line_number", "_comment", "_comment_is_header"]
+    mutable = ["_current_line_number", "_comment", "_comment_is_header"] + ([LINE_MEMO] if HAS_LINE_MEMO else [])
     owns_state = True
+
+
+def MEMO(p):
+    """The remembered line of the last queued attribute statement (None on a tree without that field)."""
+    return getattr(p, LINE_MEMO) if HAS_LINE_MEMO else None
 
 
 inline_ok(PTP + ".current_line_number", why="trivial accessor (asserts the line number is positive)")
@@ -856,7 +1185,7 @@ def builder_unchanged(new_b, old_b):
                *[dsb_unchanged(a, b) for a, b in zip(ns_, os_)])
 
 
-def flush_clauses(new_p, old_p, prefix="flush:", response_marker=False):
+def flush_clauses(new_p, old_p, prefix="flush:", response_marker=False, memo_kept=True):
     """What flushing the collected comment does (documented rule): a header block becomes the doc of the current
     section; otherwise the block is the doc of the pending attribute statement, which is committed with it."""
     nb, ob = B(new_p), B(old_p)
@@ -864,6 +1193,7 @@ def flush_clauses(new_p, old_p, prefix="flush:", response_marker=False):
     out = {
         "comment-consumed": EQ(new_p._comment, ""),
         "line-kept": new_p._current_line_number == old_p._current_line_number,
+        "attribute-line-memo-kept": (MEMO(new_p) == MEMO(old_p)) if (HAS_LINE_MEMO and memo_kept) else True,
         "header-doc": IMPLIES(hdr, lambda: AND(EQ(SECS(nb)[len(SECS(ob)) - 1]._doc, old_p._comment))),
         "attribute-doc-kept-section-doc": IMPLIES(NOT(hdr), lambda: EQ(SECS(nb)[len(SECS(ob)) - 1]._doc, CUR(ob)._doc)),
     }
@@ -924,6 +1254,8 @@ def processor_unchanged(new_p, old_p, *except_):
             cs.append(SAME(getattr(new_p, f), getattr(old_p, f)))
     if "builder" not in except_:
         cs.append(builder_unchanged(B(new_p), B(old_p)))
+    if HAS_LINE_MEMO and LINE_MEMO not in except_:  # last, so that the numbering of the other conjuncts does not depend on it
+        cs.append(SAME(MEMO(new_p), MEMO(old_p)))
     return AND(*cs)
 
 
@@ -1009,15 +1341,21 @@ def _stmt_raises():
 def _stmt_post(s, tag, T, name=None, value=None):
     out = {"exactly-this-statement-pending": pending_is(B(s.self), tag, T, name, value), "wf": WF_P(s.self),
            "calls-kept": len(_calls(B(s.self))) == len(_calls(B(s.old)))}
-    out.update(flush_clauses(s.self, s.old))
+    out.update(flush_clauses(s.self, s.old, memo_kept=False))
+    if HAS_LINE_MEMO:
+        out["line-of-this-statement-remembered"] = MEMO(s.self) == s.old._current_line_number
     return out
+
+
+def havoc_processor_stmt(s):
+    return havoc_processor(s) + ([(s.self, LINE_MEMO)] if HAS_LINE_MEMO else [])
 
 
 @contract(PTP + ".visit_statement_field", props=P)
 class _VisitField:
     params = dict(_n=NodeK, children=TupleK(ObjOf(SERIALIZABLE), Const(None), Str))
     instances = _PTP_INSTANCES
-    havoc = havoc_processor
+    havoc = havoc_processor_stmt
     raises = _stmt_raises()
 
     def pre(s):
@@ -1032,7 +1370,7 @@ class _VisitConstant:
     params = dict(_n=NodeK, children=TupleK(ObjOf(SERIALIZABLE), Const(None), Str, Const(None), Const(None), Const(None),
                                             ObjOf(ANY)))
     instances = _PTP_INSTANCES
-    havoc = havoc_processor
+    havoc = havoc_processor_stmt
     raises = _stmt_raises()
 
     def pre(s):
@@ -1046,7 +1384,7 @@ class _VisitConstant:
 class _VisitPadding:
     params = dict(_n=NodeK, children=TupleK(ObjOf(VOID_T), Const(None)))
     instances = _PTP_INSTANCES
-    havoc = havoc_processor
+    havoc = havoc_processor_stmt
     raises = _stmt_raises()
 
     def pre(s):
@@ -1088,6 +1426,7 @@ class _VisitMarker:
                "response-header-may-follow": s.self._comment_is_header,
                "comment-consumed": EQ(s.self._comment, ""),
                "line-kept": s.self._current_line_number == s.old._current_line_number,
+               "attribute-line-memo-kept": (MEMO(s.self) == MEMO(s.old)) if HAS_LINE_MEMO else True,
                "nothing-pending-afterwards": NO_PENDING(nb), "wf": WF_P(s.self),
                "calls-kept": len(_calls(nb)) == len(_calls(ob)),
                "request-header-doc": IMPLIES(s.old._comment_is_header, lambda: EQ(SECS(nb)[0]._doc, s.old._comment)),
@@ -1305,6 +1644,7 @@ def inv_clauses(p, g):
             IMPLIES(NOT(g.tag == T_PAD), lambda: EQ(pend.name, g.name)),
             IMPLIES(g.tag == T_CONST, lambda: SAME(pend.value, g.value)))),
         "open-statement-is-on-an-earlier-or-this-line": IMPLIES(g.open, lambda: AND(1 <= g.line, g.line <= 1 + g.eol)),
+        "line-of-the-open-statement-remembered": IMPLIES(g.open, lambda: MEMO(p) == g.line) if HAS_LINE_MEMO else True,
         "collected-comment-is-its-doc": IMPLIES(g.open, lambda: AND(NOT(p._comment_is_header), EQ(p._comment, g.doc))),
         "header-iff-header-window": IFF(p._comment_is_header, g.hdr_open),
         "collected-comment-is-the-header": IMPLIES(g.hdr_open, lambda: EQ(p._comment, g.hdr)),
@@ -1354,6 +1694,25 @@ def _drv_params(**kw):
     d = dict(kw)
     d.update(GHOST)
     return d
+
+
+inline_ok(PTP + ".__init__", why="constructor of the processor: inlined where the traversal starts (and verified on its own)")
+
+
+@contract(DRV + "begin", props=P17)
+class _DrvBegin:
+    """Base case: on a fresh builder (postcondition of DataTypeBuilder.__init__) the new processor satisfies INV with the
+    initial ghost state (no line passed, no statement seen, header window open and empty)."""
+    params = dict(statement_stream_processor=MutObjOf(DTB), strict=Bool)
+    returns = MutObjOf(PTP)
+
+    def pre(s):
+        b = s.statement_stream_processor
+        return {"fresh-builder": AND(len(SECS(b)) == 1, dsb_is_empty(SECS(b)[0]), NO_PENDING(b), WF(b))}
+
+    def post(s):
+        g0 = _View(eol=0, open=False, tag=1, T=None, name="", value=None, doc="", line=1, hdr_open=True, hdr="", count=0)
+        return inv_clauses(s.result, g0)
 
 
 @contract(DRV + "line_blank", props=P)
